@@ -41,6 +41,16 @@ CHECKS = {
         text='Theorems: 304 iff the modelled Tornado matcher accepts, and then no effects; matcher sound/complete w.r.t. wildcard-first or weak equality with some tag; the string handed to SHA-256 (version + path + repr of the ordered effective parameter dict) is injective in (path, ordered effective parameters) for all strings below U+110000 (Python repr proved self-delimiting through a decoder round trip) - so equal validators mean equal requests or a SHA-256 collision; errors carry no validator. Tie: sha256(model pre-image) must equal the Etag header on every 200; pairwise distinctness/repeatability and 19 If-None-Match forms observed over HTTP.',
         note='Trusted: Coq kernel, gen_tables.py (str.isprintable table from the interpreter), extraction, harness. Modelled not verified: CPython repr (tied by the Etag comparison), Tornado check_etag_header (re-modelled) and auto-ETag on 200 only. SHA-256 uninterpreted.',
         design='5/C19'),
+    'C07': dict(
+        technique='Coq proof: invariants of a labelled transition system over any number of requests/pools/events by induction over event sequences + extracted-model correspondence on EVERY edge of the explored state graph (exhaustive for <=3 requests quick, <=4 thorough) replayed on the real coroutines',
+        text='Theorems for every finite event sequence (starts, deliveries in any order, pool breaks, shutdown signals), any number of requests, any positive tries, both restart options: at most tries submits per request; a pool is replaced at most once, only if broken, and is handed to shutdown; pools created <= 1 + broken pools; exit(10) scheduled iff restart off and some request failed its last try (having used all tries); every delivery finishes a request or moves it to a strictly later try below the bound. The model is tied to DiffHandler.diff/get_diff_executor by replaying a schedule for every edge of the reachable state graph on the real coroutines with a scripted fake ProcessPoolExecutor.',
+        note='Trusted: Coq kernel, extraction, harness/pool_harness.py (fake executor, quit recorder). Modelled not verified: asyncio atomicity between awaits; ProcessPoolExecutor raises BrokenProcessPool from submit() once broken.',
+        design='5/C07'),
+    'C20': dict(
+        technique='Coq proof over the same transition system with shutdown events (monotone terminating flag, no creation after begin, late/retrying requests error, running diffs finish, all pools shut or killed) + every-edge correspondence with shutdown at every state; real-process probe in the thorough tier (exploration)',
+        text='Theorems: begin-shutdown sets a monotone flag; while it is set no step creates or changes a pool; late requests and retries end with an error; a pending diff that completes gets its normal response; in every reachable state after begin every created pool has been handed to shutdown or killed. Tied by replaying, for 1-3 requests, every edge of the state graph that contains a shutdown (graceful, immediate, escalation) on the real coroutines. "No worker process left alive" is an OS fact: explored with real processes in the thorough tier, labelled exploration.',
+        note='Trusted: as C07; executor.shutdown(wait=True) reaps workers and kill() breaks the pool (modelled).',
+        design='5/C20'),
 }
 
 NOT_YET = {}
